@@ -13,9 +13,12 @@ import (
 	"encoding/json"
 	"fmt"
 	"io"
+	"net"
 	"os"
+	"os/exec"
 	"path/filepath"
 	"strings"
+	"sync"
 	"time"
 
 	"github.com/markkurossi/mpc/compiler"
@@ -94,6 +97,11 @@ type cs struct {
 	History []int  `json:"history"` // programs compiled before, on the same instance
 	Share   string `json:"share"`   // history: compiler | params
 	Expect  string `json:"expect,omitempty"`
+	// app: a history of two-party sessions of the repository's own application (apps/garbled, built unmodified):
+	// one long-running evaluator process, one garbler process per session
+	App      int      `json:"app,omitempty"`      // application program index
+	EvalIn   string   `json:"eval_in,omitempty"`  // the evaluator's input (fixed for its lifetime)
+	Sessions []string `json:"sessions,omitempty"` // the garbler's input per session
 }
 
 type output struct {
@@ -138,6 +146,170 @@ func kindOf(d string) string {
 		return "circuit"
 	}
 	return "ssa"
+}
+
+// ---- app-level session histories ----
+
+var appPrograms = []struct {
+	name string
+	src  string
+	// f computes the expected printed result from the garbler's and the evaluator's input bytes
+	f func(g, e []byte) uint64
+}{
+	{"sum-bytes", "package main\n\nfunc main(g []byte, e uint8) uint16 {\n\tvar sum uint16\n\tfor i := 0; i < len(g); i++ {\n\t\tsum = sum + uint16(g[i])\n\t}\n\treturn sum + uint16(e)\n}\n",
+		func(g, e []byte) uint64 {
+			var s uint64
+			for _, b := range g {
+				s += uint64(b)
+			}
+			return (s + uint64(e[0])) & 0xffff
+		}},
+	{"both-unsized", "package main\n\nfunc main(g []byte, e []byte) uint32 {\n\tvar s uint32\n\tfor i := 0; i < len(g); i++ {\n\t\ts = s*3 + uint32(g[i])\n\t}\n\tfor i := 0; i < len(e); i++ {\n\t\ts = s ^ (uint32(e[i]) << 8)\n\t}\n\treturn s\n}\n",
+		func(g, e []byte) uint64 {
+			var s uint32
+			for _, b := range g {
+				s = s*3 + uint32(b)
+			}
+			for _, b := range e {
+				s ^= uint32(b) << 8
+			}
+			return uint64(s)
+		}},
+}
+
+func hexBytes(s string) []byte {
+	b, err := hex.DecodeString(strings.TrimPrefix(s, "0x"))
+	if err != nil {
+		panic(err)
+	}
+	return b
+}
+
+type lineBuf struct {
+	mu sync.Mutex
+	b  bytes.Buffer
+}
+
+func (l *lineBuf) Write(p []byte) (int, error) { l.mu.Lock(); defer l.mu.Unlock(); return l.b.Write(p) }
+func (l *lineBuf) String() string              { l.mu.Lock(); defer l.mu.Unlock(); return l.b.String() }
+
+func resultLines(out string) []string {
+	var r []string
+	lines := strings.Split(out, "\n")
+	// the text after the last newline is a line still being written: ignore it
+	for _, l := range lines[:len(lines)-1] {
+		if strings.HasPrefix(l, "Result[") {
+			r = append(r, strings.TrimSpace(l))
+		}
+	}
+	return r
+}
+
+// runApp runs one history. It returns ("", "") if the property held, (kind, what) for a violation, and
+// ("skip", why) when the environment could not run it (no loopback, port clash that persists, a 120 s guard).
+func runApp(k cs) (string, string) {
+	bin := filepath.Join(os.Getenv("VERIF_WORK"), "garbled-app")
+	if _, err := os.Stat(bin); err != nil {
+		return "skip", "apps/garbled binary not built"
+	}
+	dir, err := os.MkdirTemp(os.Getenv("VERIF_WORK"), "c08app")
+	if err != nil {
+		return "skip", err.Error()
+	}
+	defer os.RemoveAll(dir)
+	file := filepath.Join(dir, "prog.mpcl")
+	os.WriteFile(file, []byte(appPrograms[k.App].src), 0644)
+	var ev *exec.Cmd
+	var evOut, evErr *lineBuf
+	var addr string
+	for try := 0; ; try++ {
+		ln, err := net.Listen("tcp", "127.0.0.1:0")
+		if err != nil {
+			return "skip", "no loopback TCP: " + err.Error()
+		}
+		addr = ln.Addr().String()
+		ln.Close()
+		evOut, evErr = &lineBuf{}, &lineBuf{}
+		ev = exec.Command(bin, "-e", "-i", k.EvalIn, "-port", addr, file)
+		ev.Dir = dir
+		ev.Stdout, ev.Stderr = evOut, evErr
+		if err := ev.Start(); err != nil {
+			return "skip", err.Error()
+		}
+		up := false
+		for i := 0; i < 1200 && !up; i++ {
+			time.Sleep(25 * time.Millisecond)
+			up = strings.Contains(evOut.String(), "Listening for connections")
+			if strings.Contains(evErr.String(), "address already in use") {
+				break
+			}
+		}
+		if up {
+			break
+		}
+		ev.Process.Kill()
+		ev.Wait()
+		if try >= 4 {
+			return "skip", "evaluator did not start listening: " + evErr.String()
+		}
+	}
+	evDone := make(chan error, 1)
+	go func() { evDone <- ev.Wait() }()
+	defer func() {
+		ev.Process.Kill()
+		<-evDone
+	}()
+	evIn := []byte{0}
+	if strings.HasPrefix(k.EvalIn, "0x") {
+		evIn = hexBytes(k.EvalIn)
+	} else {
+		var v int
+		fmt.Sscan(k.EvalIn, &v)
+		evIn = []byte{byte(v)}
+	}
+	for i, gin := range k.Sessions {
+		want := fmt.Sprintf("Result[0]: %d", appPrograms[k.App].f(hexBytes(gin), evIn))
+		g := exec.Command(bin, "-i", gin, "-port", addr, file)
+		g.Dir = dir
+		var gout, gerr bytes.Buffer
+		g.Stdout, g.Stderr = &gout, &gerr
+		if err := g.Start(); err != nil {
+			return "skip", err.Error()
+		}
+		gd := make(chan error, 1)
+		go func() { gd <- g.Wait() }()
+		var gres error
+		select {
+		case gres = <-gd:
+		case <-time.After(120 * time.Second):
+			g.Process.Kill()
+			<-gd
+			return "skip", fmt.Sprintf("session %d did not finish within 120 s", i)
+		}
+		// the evaluator prints its result just after the garbler has got its own
+		var evRes []string
+		for w := 0; w < 400; w++ {
+			evRes = resultLines(evOut.String())
+			if len(evRes) > i {
+				break
+			}
+			select {
+			case <-evDone:
+				evDone <- nil
+				w = 400
+			default:
+				time.Sleep(25 * time.Millisecond)
+			}
+		}
+		if gres != nil || len(evRes) <= i {
+			return "session-failed", fmt.Sprintf("session %d of history %v (evaluator input %s): garbler: %v %q; evaluator: %q", i, k.Sessions, k.EvalIn, gres, strings.TrimSpace(gerr.String()), strings.TrimSpace(evErr.String()))
+		}
+		gr := resultLines(gout.String())
+		if len(gr) != 1 || gr[0] != want || evRes[i] != want {
+			return "result-differs", fmt.Sprintf("session %d of history %v (evaluator input %s): garbler printed %v, evaluator printed %q, the program computes %q", i, k.Sessions, k.EvalIn, gr, evRes[i], want)
+		}
+	}
+	return "", ""
 }
 
 type nopCloser struct{ io.Writer }
@@ -221,6 +393,10 @@ func baseline(prog int) output {
 
 func runCase(ctx *runner.Ctx, k cs) {
 	ctx.Eval(1)
+	if k.Mode == "app" {
+		runAppCase(ctx, k)
+		return
+	}
 	name := programs[k.Prog].name
 	base := baseline(k.Prog)
 	if base.err != "" {
@@ -294,6 +470,22 @@ func runCase(ctx *runner.Ctx, k cs) {
 		}
 		ctx.Outcome("same-output-in-another-process")
 	}
+}
+
+func runAppCase(ctx *runner.Ctx, k cs) {
+	kind, what := runApp(k)
+	switch kind {
+	case "":
+		ctx.Nontrivial(fmt.Sprintf("app/%s/%s/%v", appPrograms[k.App].name, k.EvalIn, k.Sessions))
+		ctx.Outcome(fmt.Sprintf("app-history-ok/sessions=%d", len(k.Sessions)))
+	case "skip":
+		ctx.Outcome("app-history-skipped")
+		ctx.Note("app-level history skipped: " + what)
+		ctx.Incomplete("an app-level session history could not be run in this environment")
+	default:
+		ctx.Violate("app-history."+kind, "apps/garbled, program "+appPrograms[k.App].name+": the two parties of a later session do not hold the same circuit / result: "+what, k)
+	}
+	return
 }
 
 func work(ctx *runner.Ctx) {
@@ -384,6 +576,32 @@ func work(ctx *runner.Ctx) {
 				if !ctx.Quick() {
 					for _, h2 := range hp {
 						emit(cs{Mode: "history", Prog: last, History: []int{h2, h1}, Share: share})
+					}
+				}
+			}
+		}
+	}
+	// app-level histories: every sequence of <= 3 (quick 2, plus the strictly shrinking and growing triples) sessions
+	// over garbler inputs of 1..3 bytes (thorough 1..4) against one long-running evaluator
+	gins := []string{"0x07", "0x0102", "0x0a0b0c"}
+	if !ctx.Quick() {
+		gins = append(gins, "0xfffefdfc")
+	}
+	for ai := range appPrograms {
+		evIns := []string{"5"}
+		if appPrograms[ai].name == "both-unsized" {
+			evIns = []string{"0x11", "0x2233"}
+		}
+		for _, ein := range evIns {
+			for _, a := range gins {
+				emit(cs{Mode: "app", App: ai, EvalIn: ein, Sessions: []string{a}})
+				for _, b := range gins {
+					emit(cs{Mode: "app", App: ai, EvalIn: ein, Sessions: []string{a, b}})
+					for _, c := range gins {
+						if ctx.Quick() && !((len(a) > len(b) && len(b) > len(c)) || (len(a) < len(b) && len(b) < len(c)) || (a == c && a != b)) {
+							continue
+						}
+						emit(cs{Mode: "app", App: ai, EvalIn: ein, Sessions: []string{a, b, c}})
 					}
 				}
 			}
